@@ -75,6 +75,9 @@ func loadProgram(repo string, specFiles []string, externFiles []string) (*Progra
 			return nil, err
 		}
 	}
+	if err := p.deriveAll(); err != nil {
+		return nil, err
+	}
 	return p, nil
 }
 
